@@ -78,7 +78,28 @@ def Statement_escape_table : Prop :=
   (∀ p ∈ Tables.stringEscapeMap, unescChar p.1 = some p.2) ∧
   ∀ e d, unescChar e = some d → (e, d) ∈ Tables.stringEscapeMap
 
+/-- the result container: whatever part of a lazily evaluated result was handed out before — by fresh
+    iterators advanced any number of times, by `len` / `bool` / `bindings`, in any order — `Result.bindings`
+    (what every serializer writes) is then the full table, rows in which nothing is bound included; the same
+    for a result built from a list. -/
+def Statement_bindings_complete : Prop :=
+  ∀ (full : List Row) (ops : List HOp),
+    ((Lazy.run ⟨[], some full⟩ ops).force.mat = full) ∧ ((Lazy.run ⟨full, none⟩ ops).force.mat = full)
+
 /-! ### Theorems -/
+
+theorem bindings_complete : Statement_bindings_complete := by
+  intro full ops
+  constructor
+  · rw [force_mat, run_all]; simp [Lazy.all]
+  · rw [force_mat, run_all]; simp [Lazy.all]
+
+/-- regression witness for `fix: Result.__iter__ keeps rows in which nothing is bound …`: the previous
+    `__iter__` did not record an all-unbound row it pulled from the generator — one `next()` on a
+    two-row result whose first row is all-unbound left `bindings` with one row -/
+theorem old_iter_forgets_unbound_rows :
+    ((pullOld 1 [[none], [some (.iri ['x'])]] [] []).1.force.mat) = [[some (.iri ['x'])]] := by decide
+
 
 theorem escape_table : Statement_escape_table := by
   refine ⟨by decide, ?_⟩
